@@ -3,8 +3,8 @@
    meth: 0..6 = GET HEAD POST PUT DELETE PATCH OPTIONS, 7+n = other method n
    body: N | R<id> | O<id>            optional number: _ | <n>
    cookie list option: ~ (None) | - (Some []) | n:v,n:v
-   url: sch.host.port.cred.path (port, cred: _ or number)      jar: - | h:n:v,h:n:v
-   resp: status/setcookies/loc   setcookies: - | n:v,..   loc: N | I | H | A<url> | R<path> | S<host>.<port>.<path>
+   url: sch.host.port.cred.path (port, cred: _ or number)      jar: - | h:n:v[:pathscope],...
+   resp: status/setcookies/loc[/unsent01]   setcookies: - | n:v,..   loc: N | I | H | A<url> | R<path> | S<host>.<port>.<path>
    answer:
      <sent>|<sent>|... # <disp letters> # <outcome>
    sent: org;path;urlcred;meth;body;auth;hdrcookie;pauth;reqck;jar;clen;cookiepairs;destport;secret01
@@ -31,7 +31,9 @@ let body_of s = if s = "N" then BNone else
   if s.[0] = 'R' then BReplay k else if s.[0] = 'O' then BOnce k else failwith "body"
 let str_body = function BNone -> "N" | BReplay k -> "R" ^ string_of_int (int_of_n k) | BOnce k -> "O" ^ string_of_int (int_of_n k)
 let jar_of s = if s = "-" then [] else List.map (fun e -> match split ':' e with
-  | [h; n; v] -> ((n_of_int (int_of_string h), n_of_int (int_of_string n)), n_of_int (int_of_string v)) | _ -> failwith "jar") (split ',' s)
+  | [h; n; v] -> (((n_of_int (int_of_string h), n_of_int (int_of_string n)), n_of_int (int_of_string v)), None)
+  | [h; n; v; p] -> (((n_of_int (int_of_string h), n_of_int (int_of_string n)), n_of_int (int_of_string v)), Some (n_of_int (int_of_string p)))
+  | _ -> failwith "jar") (split ',' s)
 let loc_of s =
   let rest = String.sub s 1 (String.length s - 1) in
   match s.[0] with
@@ -41,7 +43,8 @@ let loc_of s =
   | 'S' -> (match split '.' rest with [h; p; pa] -> LSchemeRel (n_of_int (int_of_string h), optn p, n_of_int (int_of_string pa)) | _ -> failwith "srel")
   | _ -> failwith "loc"
 let resp_of s = match split '/' s with
-  | [st; sc; l] -> { rs_status = n_of_int (int_of_string st); rs_setcookie = cklist sc; rs_loc = loc_of l }
+  | [st; sc; l] -> { rs_status = n_of_int (int_of_string st); rs_setcookie = cklist sc; rs_loc = loc_of l; rs_unsent = false }
+  | [st; sc; l; u] -> { rs_status = n_of_int (int_of_string st); rs_setcookie = cklist sc; rs_loc = loc_of l; rs_unsent = (u = "1") }
   | _ -> failwith "resp"
 let str_auth = function None -> "_" | Some (ACaller t) -> "C" ^ string_of_int (int_of_n t) | Some (AUrl t) -> "U" ^ string_of_int (int_of_n t)
 let str_sent s =
